@@ -37,13 +37,14 @@ import (
 	"github.com/gogo/protobuf/proto"
 	"github.com/pingcap/kvproto/pkg/metapb"
 	"github.com/pingcap/kvproto/pkg/pdpb"
+	"github.com/tikv/pd/server/versioninfo"
 	"pdverif/livesrv"
 	"pdverif/vkit"
 	"pgregory.net/rapid"
 )
 
 func init() {
-	vkit.Register("grpc", vkit.N{Quick: 32, Thorough: 800}, genGrpc, runGrpc)
+	vkit.Register("grpc", vkit.N{Quick: 120, Thorough: 3600}, genGrpc, runGrpc)
 }
 
 // TestPropZZLiveShutdown runs after TestProp (the driver selects ^TestProp): stops the live server.
@@ -170,15 +171,57 @@ func (h *ghist) dump(base int64) string {
 	evs := append([]*gev(nil), h.evs...)
 	sort.Slice(evs, func(i, j int) bool { return evs[i].Send < evs[j].Send })
 	var b strings.Builder
+	refusals, from, to := 0, int64(0), int64(0)
+	flush := func() {
+		if refusals > 0 {
+			fmt.Fprintf(&b, "\n    ... %d gRPC calls sent@%d..%d during the step-down/re-election were refused with the not-leader error", refusals, from, to)
+		}
+		refusals = 0
+	}
 	for _, e := range evs {
 		c := *e
 		c.Send -= base
 		if c.Recv != 0 {
 			c.Recv -= base
 		}
+		if c.During && isNotLeaderErr(c.Err) {
+			if refusals == 0 {
+				from = c.Send
+			}
+			refusals, to = refusals+1, c.Send
+			continue
+		}
+		flush()
 		b.WriteString("\n    " + c.String())
 	}
+	flush()
 	return b.String()
+}
+
+// ensureBatchSplitSupported: the bootstrap store of the fixture reports no version, so the cluster version is 0.0.0 and
+// AskBatchSplit is refused as INCOMPATIBLE_VERSION. The store registers again with a version, as a real TiKV does
+// (PutStore over gRPC); the cluster version follows the stores and is persisted by the server.
+func ensureBatchSplitSupported(node *livesrv.Node, cli pdpb.PDClient) error {
+	rc := node.Svr.GetRaftCluster()
+	if rc == nil {
+		return fmt.Errorf("no running cluster")
+	}
+	if rc.IsFeatureSupported(versioninfo.BatchSplit) {
+		return nil
+	}
+	ctx, cancel := context.WithTimeout(context.Background(), 10*time.Second)
+	defer cancel()
+	resp, err := cli.PutStore(ctx, &pdpb.PutStoreRequest{Header: node.Header(), Store: &metapb.Store{Id: 1, Address: "mock://1", Version: "4.0.0"}})
+	if err != nil {
+		return err
+	}
+	if he := resp.GetHeader().GetError(); he != nil {
+		return fmt.Errorf("PutStore: %v", he)
+	}
+	if !rc.IsFeatureSupported(versioninfo.BatchSplit) {
+		return fmt.Errorf("cluster version is still %v", node.Svr.GetClusterVersion())
+	}
+	return nil
 }
 
 func isNotLeaderErr(msg string) bool { return strings.Contains(msg, "not leader") }
@@ -209,6 +252,10 @@ func runGrpc(c GCase) (info vkit.Info, err error) {
 	gcaseNo++
 	caseNo := gcaseNo
 	gmu.Unlock()
+	if e := ensureBatchSplitSupported(node, cli); e != nil {
+		fmt.Println("C04 grpc:", e)
+		return inconclusive("cluster-version")
+	}
 
 	base := livesrv.Stamp()
 	h := &ghist{}
@@ -382,6 +429,7 @@ func runGrpc(c GCase) (info vkit.Info, err error) {
 					default:
 					}
 					do(pi, w, true, ph.During[w][i%len(ph.During[w])])
+					time.Sleep(500 * time.Microsecond)
 				}
 			}(w)
 		}
@@ -491,6 +539,9 @@ func runGrpc(c GCase) (info vkit.Info, err error) {
 	}
 	if incWhy != "" {
 		return inconclusive(incWhy)
+	}
+	if os.Getenv("VERIF_GRPC_DEBUG") != "" {
+		fmt.Printf("case %d history:%s\n", caseNo, h.dump(base))
 	}
 	info.Class(fmt.Sprintf("workers-%d", c.Workers))
 	info.Class(fmt.Sprintf("elections-%d", elections))
